@@ -202,6 +202,13 @@ func genCfg(r *rand.Rand, documented bool) acCfg {
 		}
 		c.Fans = append(c.Fans, f)
 	}
+	// the order of declaration is arbitrary: members may be declared after the function curve that uses them, ids need not
+	// be sorted (a configuration is a set of entries)
+	if r.Intn(3) > 0 {
+		r.Shuffle(len(c.Sensors), func(i, j int) { c.Sensors[i], c.Sensors[j] = c.Sensors[j], c.Sensors[i] })
+		r.Shuffle(len(c.Curves), func(i, j int) { c.Curves[i], c.Curves[j] = c.Curves[j], c.Curves[i] })
+		r.Shuffle(len(c.Fans), func(i, j int) { c.Fans[i], c.Fans[j] = c.Fans[j], c.Fans[i] })
+	}
 	return c
 }
 
